@@ -47,6 +47,8 @@ def records(spec, contract_name, timeout_s=10.0, prefix=""):
     except wp.Unsupported as e:
         return [{"name": f"{prefix}extraction", "ok": False, "undecided": True, "detail": f"outside the accepted subset: {e}", "function": fq, "backend": "z3-wp", "strength": "U"}]
     out = []
+    if notes.get("vacuous"):
+        out.append({"name": f"{prefix}hypotheses_are_not_contradictory", "ok": False, "engine": True, "function": fq, "backend": "z3-wp", "strength": "U", "detail": f"`False` follows from the hypotheses of {notes['vacuous']} (contradictory requires / invariant / callee contract)"})
     merged = {}
     for ob in obls:
         merged.setdefault(ob.name, []).append(ob)
@@ -156,5 +158,11 @@ def engine_selftest():
     expect("store_through_an_alias_reaches_the_parameter", some_not_proved(wp.FnSpec(T.alias, [("a", "arr1")], lambda env: [env.shape("a") >= 1], (), None, {}), "frame.a_unchanged"))
     short = wp.FnSpec(T.early, [("a", "arr1"), ("n", "int")], lambda env: [env["n"] == env.shape("a")], ("a",), lambda old, new, res: one_everywhere(old, new, res, old["n"]), {0: good_inv})
     expect("loop_that_stops_one_short_does_not_prove_the_postcondition", some_not_proved(short, "post.filled"))
+    contradictory = wp.FnSpec(T.fill, [("a", "arr1"), ("n", "int")], lambda env: [env["n"] == env.shape("a"), env["n"] < 0, z3.ForAll([k], env.sel("a", k) == 0), env.sel("a", 7) == 1], ("a",), lambda old, new, res: one_everywhere(old, new, res, old["n"]), {0: weak_inv})
+    try:
+        _, notes = wp.prove(contradictory, timeout_s=3.0, budget_s=20.0)
+        expect("contradictory_precondition_is_reported_as_vacuous", bool(notes.get("vacuous")))
+    except wp.Unsupported as e:
+        expect("contradictory_precondition_is_reported_as_vacuous", "contradictory" in str(e))
     bad = [n for n, ok in results if not ok]
     return [{"name": "proof_rules_accept_and_reject_as_they_must_on_toy_functions", "ok": not bad, "engine": True, "detail": f"{len(results)} rule tests; failed: {bad}", "function": "pyvc.wp", "backend": "selftest", "strength": "B"}]
